@@ -495,7 +495,8 @@ impl<'a> Selector<'a> {
             Expr::FilterFunc(filter_expr) => match filter_expr {
                 FilterFunc::Exists(paths) => self.eval_exists(root, pos, paths),
             },
-            _ => todo!(),
+            // arithmetic expressions can be parsed but are not supported as filter or predicate yet
+            _ => Err(Error::InvalidJsonPath),
         }
     }
 
